@@ -249,7 +249,7 @@ class BaseClient:
                     '*' in self.handlers[namespace]:
                 handler = self.handlers[namespace]['*']
                 args = (event, *args)
-        elif '*' in self.handlers:
+        if handler is None and '*' in self.handlers:
             if event in self.handlers['*']:
                 handler = self.handlers['*'][event]
                 args = (namespace, *args)
